@@ -549,8 +549,10 @@ pub fn exec(lineno: usize, l: &str) -> String {
                     let h1 = h0.shift_suit();
                     let h2 = h1.shift_suit();
                     let h3 = h2.shift_suit();
+                    let w0 = guard(|| h0.hand_rank_value_validated());
                     for h in [h1, h2, h3] {
                         push_opt(&mut o, guard(|| b(Some(h.hand_rank_value()) == v0)));
+                        push_opt(&mut o, guard(|| b(Some(h.hand_rank_value_validated()) == w0)));
                     }
                     push_opt(&mut o, Some(b(h3.shift_suit().to_arr() == h0.to_arr())));
                 }};
